@@ -105,10 +105,34 @@ type ctxKey2 struct{}
 // ctxOf builds the context a Val of type ctx stands for: EK "alt" carries its marker under another key
 // (and nothing under the usual one: a context of a different part of the program).
 func ctxOf(v Val) context.Context {
-	if v.EK == "alt" {
+	switch v.EK {
+	case "alt":
 		return context.WithValue(context.Background(), ctxKey2{}, string(v.S))
+	case "cancelled": // a request context that is over already
+		return context.WithValue(cancelledParent, ctxKey{}, string(v.S))
+	case "deadline": // one with a deadline (a day away)
+		return context.WithValue(deadlineParent, ctxKey{}, string(v.S))
 	}
 	return CtxWith(string(v.S))
+}
+
+var cancelledParent, deadlineParent = func() (context.Context, context.Context) {
+	c, cancel := context.WithCancel(context.Background())
+	cancel()
+	d, _ := context.WithDeadline(context.Background(), time.Now().Add(24*time.Hour)) //nolint: the process ends long before
+	return c, d
+}()
+
+// ctxState is what a hook sees of a context besides its values: whether it is over, whether it has a deadline.
+func ctxState(c context.Context) string {
+	s := ""
+	if c.Err() != nil {
+		s += "|cancelled"
+	}
+	if _, ok := c.Deadline(); ok {
+		s += "|deadline"
+	}
+	return s
 }
 
 // CtxMarker extracts the marker ("" for background, "alt:"+marker for a context that carries one under the
@@ -118,12 +142,12 @@ func CtxMarker(c context.Context) string {
 		return "<nil-context>"
 	}
 	if s, ok := c.Value(ctxKey{}).(string); ok {
-		return s
+		return s + ctxState(c)
 	}
 	if s, ok := c.Value(ctxKey2{}).(string); ok {
-		return "alt:" + s
+		return "alt:" + s + ctxState(c)
 	}
-	return ""
+	return "" + ctxState(c)
 }
 
 func mkErr(v Val) error {
